@@ -147,13 +147,19 @@ def install_c02(ctx: Any) -> None:
         ic = df["index_correlation"].tolist()
         corr = df["correlation"].tolist()
         pos = {i: k for k, i in enumerate(ids)}
+        import collections
+        n_with = collections.Counter(corr)
         for k, (i, l, c) in enumerate(zip(ids, ic, corr)):
             if l > 0:
                 j = pos.get(l)
                 if j is None:
                     return f"event {i} linked to {l}, which is not an event id"
-                if ic[j] != i:
+                # mutuality is promised for "the unique event on the opposite side": an id carried by more than two events
+                # (real traces: several runtime calls sharing one id) has no unique counterpart
+                if ic[j] != i and n_with[c] <= 2:
                     return f"link not mutual: {i} -> {l} but {l} -> {ic[j]}"
+                if n_with[c] > 2:
+                    ctx.monitor["links_with_ambiguous_ids_not_judged_for_mutuality"] += 1
                 if corr[j] != c:
                     return f"event {i} (correlation {c}) linked to {l} (correlation {corr[j]})"
             elif c == -1 and l != -1:
